@@ -556,8 +556,12 @@ class HTTPMessageLogEntry(AbstractMessageLogEntry):
             return self._summary
         content_type = self._guess_content_type(msg)
         if content_type.startswith("application/llsd"):
-            notation = llsd.format_notation(llsd.parse(msg.content))
-            self._summary += notation.decode("utf8")[:500]
+            try:
+                notation = llsd.format_notation(llsd.parse(msg.content))
+                self._summary += notation.decode("utf8")[:500]
+            except Exception:
+                # Labelled LLSD but isn't, the status alone will have to do
+                pass
         return self._summary
 
     def _guess_content_type(self, message):
